@@ -372,6 +372,19 @@ def structured(tier):
         for idx, numbering in enumerate(numberings):
             h = nx.relabel_nodes(g, numbering)
             fam.append(('spider%s#%d' % ('-'.join(map(str, legs)), idx), sorted(h.nodes), sorted(tuple(sorted(e)) for e in h.edges)))
+    # balanced trees with nested symmetry (13 and 15 nodes): one automorphism moves several pairs of nodes at once, so the orbit
+    # bookkeeping has to merge more than one pair per permutation found; under three node numberings each
+    for name, tree in (('ternary-tree-depth2', nx.balanced_tree(3, 2)), ('binary-tree-depth3', nx.balanced_tree(2, 3)),
+                       ('two-ternary-stars-joined', nx.balanced_tree(3, 2).subgraph([0, 1, 2, 4, 5, 6, 7, 8, 9]).copy())):
+        tree = nx.convert_node_labels_to_integers(tree)
+        base_nodes = sorted(tree.nodes)
+        for k in range(3 if tier == 'quick' else 8):
+            perm = list(base_nodes)
+            random.Random(1000 * len(base_nodes) + k).shuffle(perm)
+            if k == 0:
+                perm = list(base_nodes)
+            h = nx.relabel_nodes(tree, dict(zip(base_nodes, perm)))
+            fam.append(('%s#%d' % (name, k), sorted(h.nodes), sorted(tuple(sorted(e)) for e in h.edges)))
     max_tree = 7 if tier == 'quick' else 8
     for n in range(2, max_tree + 1):
         for idx, tree in enumerate(nx.nonisomorphic_trees(n)):
